@@ -438,6 +438,22 @@ def _masking_function():
         raise Inconclusive("cannot locate `for line in source`")
     body = loops[0].body
     idx = [i for i, n in enumerate(body) if isinstance(n, ast.While) and "QUOTES_RE.search" in ast.unparse(n.test)]
+    if not idx:
+        # the loop may live in a method of its own, called as `line = self.<method>(line)` at the same place
+        for n in body:
+            if isinstance(n, ast.Assign) and ast.unparse(n.targets[0]) == "line" and isinstance(n.value, ast.Call) \
+                    and isinstance(n.value.func, ast.Attribute) and ast.unparse(n.value.func.value) == "self" \
+                    and [ast.unparse(a) for a in n.value.args] == ["line"] and not n.value.keywords:
+                meth = getattr(sf.FortranContainer, n.value.func.attr, None)
+                if meth is None:
+                    continue
+                msrc = textwrap.dedent(inspect.getsource(meth))
+                mfn = ast.parse(msrc).body[0]
+                if any(isinstance(x, ast.While) and "QUOTES_RE.search" in ast.unparse(x.test) for x in ast.walk(mfn)):
+                    def masking(self, line, _m=meth):
+                        line = _m(self, line)
+                        return line, self.strings
+                    return masking, msrc
     if len(idx) != 1:
         raise Inconclusive("cannot locate the literal-masking loop")
     i = idx[0]
